@@ -407,7 +407,7 @@ Qed.
 Lemma step_ctx_done st e : ctx_done st = true ->
   ctx_done (fst (step st e)) = true /\ forall o, In o (snd (step st e)) -> o = Return RErr.
 Proof.
-  intros Hc. destruct e as [f v|f c|f [v|]| |]; simpl; try (split; [assumption|tauto]).
+  intros Hc. destruct e as [f v|f c|f [v|]| |]; simpl; try (split; [auto|tauto]).
   unfold wake. rewrite Hc. destruct (waiting (ph st)); simpl; split; auto; try tauto.
   intros o [<-|[]]; reflexivity.
 Qed.
@@ -422,3 +422,280 @@ Qed.
 
 Theorem ctx_done_fails st : ctx_done st = true -> waiting (ph st) = true -> step st Wake = (set_ph st Failed, [Return RErr]).
 Proof. intros Hc Hw. simpl. unfold wake. now rewrite Hw, Hc. Qed.
+
+(* ================================================================ what a returned result is made of *)
+Definition Comb (st : state) : Prop :=
+  combine (shares st) others (dealt self) = Some (sk st) /\ lookup (pkeys st) self = Some (pub (sk st)).
+
+Definition DoneFacts (st : state) (sk0 : S) (pkl : list V) (tpk : V) : Prop :=
+  sk st = sk0 /\
+  key_list (pkeys st) parties = Some pkl /\
+  (forall p v, In p parties -> p <> self -> lookup (pkeys st) p = Some v ->
+               exists c, lookup (commits st) p = Some c /\ C_eqb (H v) c = true) /\
+  crosscheck pkl = true /\ tpk = tpk_of pkl.
+
+Definition PInv (st : state) : Prop :=
+  match ph st with
+  | WaitShares => sk st = dealt self
+  | WaitCommits | WaitReveals => Comb st
+  | Done a b c => Comb st /\ DoneFacts st a b c
+  | Failed | Panicked => True
+  end.
+
+Lemma key_list_lookup pk ps l p : key_list pk ps = Some l -> In p ps -> exists v, lookup pk p = Some v.
+Proof.
+  revert l. induction ps as [|q ps IH]; simpl; intros l E Hin; [contradiction|].
+  destruct (lookup pk q) eqn:L; [|discriminate]. destruct (key_list pk ps) eqn:K; [|discriminate].
+  destruct Hin as [->|Hin]; eauto.
+Qed.
+
+(* deliveries only extend the three maps *)
+Lemma PInv_extends st sh cm pk :
+  extends (shares st) sh -> extends (commits st) cm -> extends (pkeys st) pk ->
+  PInv st -> PInv (mkState sh cm pk (sk st) (ph st) (ctx_done st)).
+Proof.
+  intros Es Ec Ep. unfold PInv, Comb, DoneFacts. simpl.
+  destruct (ph st); auto.
+  - intros [H1 H2]. split; [eapply combine_extends; eauto|auto].
+  - intros [H1 H2]. split; [eapply combine_extends; eauto|auto].
+  - intros [[H1 H2] (H3 & H4 & H5 & H6 & H7)]. split; [split; [eapply combine_extends; eauto|auto]|].
+    split; [auto|]. split; [eapply key_list_extends; eauto|]. split; [|auto].
+    intros p v Hp Hne L. destruct (key_list_lookup _ _ _ p H4 Hp) as [v' L'].
+    assert (v = v') by (apply Ep in L'; congruence). subst v'.
+    destruct (H5 p v Hp Hne L') as [c [Lc Hc]]. eauto.
+Qed.
+
+Lemma finish_inv st : Comb st -> PInv (fst (finish st)).
+Proof.
+  intros HC. unfold finish. destruct (validate (commits st) (pkeys st)) eqn:Ev; simpl; try exact I.
+  destruct (key_list (pkeys st) parties) as [l|] eqn:K; simpl; [|exact I].
+  destruct (crosscheck l) eqn:X; simpl; [|exact I].
+  unfold PInv. simpl. split; [exact HC|]. unfold DoneFacts. simpl. repeat split; auto.
+  intros p v _ Hne L. eapply validate_ok; eauto. now apply lookup_some_in.
+Qed.
+
+Lemma wake_reveals_inv st : Comb st -> ph st = WaitReveals -> PInv (fst (wake_reveals st)).
+Proof.
+  intros HC Hp. unfold wake_reveals. destruct (_ =? _); [now apply finish_inv|].
+  simpl. unfold PInv. now rewrite Hp.
+Qed.
+
+Lemma wake_commits_inv st : Comb st -> ph st = WaitCommits -> PInv (fst (wake_commits st)).
+Proof.
+  intros HC Hp. unfold wake_commits. destruct (_ =? _); [|simpl; unfold PInv; now rewrite Hp].
+  destruct (lookup (pkeys st) self); [|exact I].
+  destruct (wake_reveals (set_ph st WaitReveals)) as [st' outs] eqn:W. simpl.
+  change st' with (fst (st', outs)). rewrite <- W. apply wake_reveals_inv; auto.
+Qed.
+
+Lemma wake_shares_inv st : sk st = dealt self -> ph st = WaitShares -> PInv (fst (wake_shares st)).
+Proof.
+  intros Hs Hp. unfold wake_shares. destruct (_ =? _); [|simpl; unfold PInv; now rewrite Hp].
+  destruct (combine (shares st) others (sk st)) as [s|] eqn:Ec; [|exact I].
+  match goal with |- context [wake_commits ?x] => destruct (wake_commits x) as [st' outs] eqn:W;
+    change st' with (fst (st', outs)); rewrite <- W; apply wake_commits_inv; auto end.
+  split; simpl; [now rewrite <- Hs|apply lookup_set_same].
+Qed.
+
+Lemma step_inv st e : PInv st -> PInv (fst (step st e)).
+Proof.
+  intros HI. destruct e as [f v|f c|f [v|]| |]; simpl; auto.
+  - apply PInv_extends; auto using extends_refl, extends_put.
+  - apply PInv_extends; auto using extends_refl, extends_put.
+  - apply PInv_extends; auto using extends_refl, extends_put.
+  - unfold wake. destruct (waiting (ph st)) eqn:Hw; [|exact HI].
+    destruct (ctx_done st); [exact I|].
+    unfold PInv in HI. destruct (ph st) eqn:Hp; try discriminate.
+    + now apply wake_shares_inv.
+    + now apply wake_commits_inv.
+    + now apply wake_reveals_inv.
+Qed.
+
+Lemma run_inv st evs : PInv st -> PInv (fst (run st evs)).
+Proof.
+  revert st. induction evs as [|e evs IH]; intros st HI; simpl; auto.
+  assert (H1 := step_inv st e HI). destruct (step st e) as [st1 o1]. simpl in H1.
+  specialize (IH st1 H1). destruct (run st1 evs). exact IH.
+Qed.
+
+(* If KeyGen returns Ok (sk, pks, tpk) -- after ANY event list -- then: sk is the own dealt share plus the stored share of
+   every other party (all present); pks lists, in party order, the own key pub sk and the stored key of every other
+   party (all present); every other party's stored commitment is H of its stored key; the cross-check accepted exactly
+   this list; tpk is assembled from it.  "Stored" = the FIRST value delivered from that sender (final_*_first below). *)
+Theorem outcome_closed_form evs sk0 pkl tpk : ph (final evs) = Done sk0 pkl tpk ->
+  combine (shares (final evs)) others (dealt self) = Some sk0 /\
+  lookup (pkeys (final evs)) self = Some (pub sk0) /\
+  key_list (pkeys (final evs)) parties = Some pkl /\
+  (forall p v, In p parties -> p <> self -> lookup (pkeys (final evs)) p = Some v ->
+               exists c, lookup (commits (final evs)) p = Some c /\ C_eqb (H v) c = true) /\
+  crosscheck pkl = true /\ tpk = tpk_of pkl.
+Proof.
+  intros Hd. assert (HI : PInv (final evs)) by (apply run_inv; reflexivity).
+  unfold PInv in HI. rewrite Hd in HI. destruct HI as [[H1 H2] (H3 & H4 & H5 & H6 & H7)].
+  rewrite <- H3. auto 10.
+Qed.
+
+(* ================================================================ "stored" = the first value delivered *)
+Fixpoint first_share (evs : list event) (p : nat) : option S :=
+  match evs with
+  | [] => None
+  | DeliverShare f v :: r => if f =? p then Some v else first_share r p
+  | _ :: r => first_share r p
+  end.
+Fixpoint first_commit (evs : list event) (p : nat) : option C :=
+  match evs with
+  | [] => None
+  | DeliverCommit f c :: r => if f =? p then Some c else first_commit r p
+  | _ :: r => first_commit r p
+  end.
+Fixpoint first_reveal (evs : list event) (p : nat) : option V :=      (* unparsable reveals are not stored *)
+  match evs with
+  | [] => None
+  | DeliverReveal f (Some v) :: r => if f =? p then Some v else first_reveal r p
+  | _ :: r => first_reveal r p
+  end.
+
+Definition or_else {A} (a b : option A) : option A := match a with Some x => Some x | None => b end.
+
+Lemma lookup_put {A} (m : list (nat * A)) k v k' :
+  lookup (put m k v) k' = or_else (lookup m k') (if k =? k' then Some v else None).
+Proof.
+  destruct (lookup m k') eqn:L; simpl; [now apply lookup_put_some|].
+  destruct (Nat.eqb_spec k k') as [->|Hne]; [now apply lookup_put_new|]. now rewrite lookup_put_other.
+Qed.
+
+(* Wake never touches shares and commitments, and of the keys only the own entry *)
+Definition same_maps (st st' : state) : Prop :=
+  shares st' = shares st /\ commits st' = commits st /\
+  (forall p, p <> self -> lookup (pkeys st') p = lookup (pkeys st) p).
+
+Lemma same_maps_refl st : same_maps st st. Proof. repeat split. Qed.
+Lemma same_maps_set_ph st p : same_maps st (set_ph st p). Proof. repeat split. Qed.
+
+Lemma finish_same st : same_maps st (fst (finish st)).
+Proof.
+  unfold finish. destruct (validate _ _); simpl; try apply same_maps_set_ph.
+  destruct (key_list _ _); simpl; [|apply same_maps_set_ph]. destruct (crosscheck l); apply same_maps_set_ph.
+Qed.
+
+Lemma wake_reveals_same st : same_maps st (fst (wake_reveals st)).
+Proof. unfold wake_reveals. destruct (_ =? _); [apply finish_same|apply same_maps_refl]. Qed.
+
+Lemma wake_commits_same st : same_maps st (fst (wake_commits st)).
+Proof.
+  unfold wake_commits. destruct (_ =? _); [|apply same_maps_refl].
+  destruct (lookup (pkeys st) self); [|apply same_maps_set_ph].
+  assert (Hs := wake_reveals_same (set_ph st WaitReveals)).
+  destruct (wake_reveals (set_ph st WaitReveals)). exact Hs.
+Qed.
+
+Lemma wake_same st : same_maps st (fst (wake st)).
+Proof.
+  unfold wake. destruct (waiting (ph st)); [|apply same_maps_refl].
+  destruct (ctx_done st); [apply same_maps_set_ph|].
+  destruct (ph st); try apply same_maps_refl.
+  - unfold wake_shares. destruct (_ =? _); [|apply same_maps_refl].
+    destruct (combine _ _ _); [|apply same_maps_set_ph].
+    match goal with |- context [wake_commits ?x] => assert (Hs := wake_commits_same x); destruct (wake_commits x) end.
+    destruct Hs as (H1 & H2 & H3). simpl in *. repeat split; auto.
+    intros p Hp. rewrite H3 by assumption. apply lookup_set_other. congruence.
+  - apply wake_commits_same.
+  - apply wake_reveals_same.
+Qed.
+
+Lemma run_cons_fst st e evs : fst (run st (e :: evs)) = fst (run (fst (step st e)) evs).
+Proof. simpl. destruct (step st e) as [st1 o1]. simpl. destruct (run st1 evs). reflexivity. Qed.
+
+Lemma run_first st evs p :
+  lookup (shares (fst (run st evs))) p = or_else (lookup (shares st) p) (first_share evs p) /\
+  lookup (commits (fst (run st evs))) p = or_else (lookup (commits st) p) (first_commit evs p) /\
+  (p <> self -> lookup (pkeys (fst (run st evs))) p = or_else (lookup (pkeys st) p) (first_reveal evs p)).
+Proof.
+  revert st. induction evs as [|e evs IH]; intros st.
+  - simpl. repeat split; intros; destruct (lookup _ p); reflexivity.
+  - rewrite run_cons_fst. destruct (IH (fst (step st e))) as (I1 & I2 & I3).
+    split; [rewrite I1|split; [rewrite I2|intros Hp; rewrite (I3 Hp)]];
+      destruct e as [f v|f c|f [v|]| |]; simpl; try reflexivity.
+    all: try (destruct (wake_same st) as (W1 & W2 & W3); rewrite ?W1, ?W2, ?W3 by assumption; reflexivity).
+    all: rewrite lookup_put; match goal with |- or_else (or_else ?a _) _ = _ => destruct a end; simpl; auto;
+         destruct (f =? p); auto.
+Qed.
+
+Theorem final_first evs p :
+  lookup (shares (final evs)) p = first_share evs p /\
+  lookup (commits (final evs)) p = first_commit evs p /\
+  (p <> self -> lookup (pkeys (final evs)) p = first_reveal evs p).
+Proof. destruct (run_first init evs p) as (H1 & H2 & H3). repeat split; auto. Qed.
+
+(* ================================================================ never panics *)
+(* Premise (provided by rbcFilter + authenticated links, C03): whatever is delivered comes from a session participant
+   other than the party itself.  Without it the Go code does panic: a "share" attributed to an outsider makes
+   len(shares) reach n-1 with a participant's share missing, and combineShares dereferences nil. *)
+Definition ev_ok (e : event) : Prop :=
+  match e with
+  | DeliverShare f _ | DeliverCommit f _ | DeliverReveal f _ => In f others
+  | _ => True
+  end.
+
+Hypothesis parties_nodup : NoDup parties.
+Hypothesis self_in : In self parties.
+
+Lemma filter_notin (l : list nat) x : ~ In x l -> filter (fun p => negb (p =? x)) l = l.
+Proof.
+  induction l as [|b l IH]; simpl; intros Hx; auto.
+  destruct (Nat.eqb_spec b x) as [->|]; simpl; [exfalso; apply Hx; auto|]. f_equal. apply IH. tauto.
+Qed.
+
+Lemma filter_length_remove (l : list nat) x : NoDup l -> In x l ->
+  length (filter (fun p => negb (p =? x)) l) = length l - 1.
+Proof.
+  induction l as [|a l IH]; simpl; intros Hn Hin; [contradiction|].
+  inversion Hn as [|? ? Hnotin Hn']; subst.
+  destruct (Nat.eqb_spec a x) as [->|Hne]; simpl.
+  - rewrite Nat.sub_0_r, filter_notin by assumption. reflexivity.
+  - destruct Hin as [->|Hin]; [contradiction|]. rewrite IH by assumption.
+    destruct l; [contradiction|simpl; lia].
+Qed.
+
+Lemma others_length : length others = n - 1.
+Proof. apply filter_length_remove; assumption. Qed.
+
+Lemma others_spec p : In p others <-> In p parties /\ p <> self.
+Proof.
+  unfold others. rewrite filter_In. destruct (Nat.eqb_spec p self); simpl; split; intros [H1 H2]; auto; try discriminate.
+  contradiction.
+Qed.
+
+Lemma keys_length {A} (m : list (nat * A)) : length (keys m) = length m.
+Proof. apply map_length. Qed.
+
+(* a duplicate-free key set inside L with as many entries as L covers L *)
+Lemma full_cover {A} (m : list (nat * A)) (L : list nat) p :
+  NoDup (keys m) -> incl (keys m) L -> length m = length L -> In p L -> lookup m p <> None.
+Proof.
+  intros Hn Hi Hl Hp E. apply lookup_none_keys in E. apply E.
+  apply (NoDup_length_incl Hn); auto. rewrite keys_length. lia.
+Qed.
+
+Definition NInv (st : state) : Prop :=
+  NoDup (keys (shares st)) /\ incl (keys (shares st)) others /\
+  NoDup (keys (commits st)) /\ incl (keys (commits st)) others /\
+  NoDup (keys (pkeys st)) /\
+  (ph st = WaitShares -> incl (keys (pkeys st)) others) /\
+  (ph st <> WaitShares -> incl (keys (pkeys st)) parties /\ lookup (pkeys st) self <> None) /\
+  (ph st = WaitReveals -> length (commits st) = n - 1) /\
+  ph st <> Panicked.
+
+Lemma keys_set_nodup {A} (m : list (nat * A)) k v : NoDup (keys m) -> NoDup (keys (set m k v)).
+Proof.
+  intros Hn. unfold set, keys. rewrite map_app. simpl. apply nodup_snoc.
+  - fold (keys (del m k)). rewrite keys_del. now apply NoDup_filter.
+  - fold (keys (del m k)). rewrite keys_del, filter_In. rewrite Nat.eqb_refl. simpl. intros [_ H0]. discriminate.
+Qed.
+
+Lemma keys_set_incl {A} (m : list (nat * A)) k v L : incl (keys m) L -> In k L -> incl (keys (set m k v)) L.
+Proof.
+  intros Hi Hk x Hx. unfold set, keys in Hx. rewrite map_app in Hx. apply in_app_or in Hx.
+  destruct Hx as [Hx|[<-|[]]]; auto. fold (keys (del m k)) in Hx. rewrite keys_del in Hx.
+  apply filter_In in Hx. apply Hi. tauto.
+Qed.
